@@ -103,27 +103,12 @@ def pmap(fn, items, workers=POOL):
 
 
 def gen_status():
-    p = os.path.join(vlib.CACHE, "gen", "decisions_cli.json")
-    try:
-        return json.load(open(p))
-    except (OSError, ValueError):
-        return {}
+    return vlib.gen_status("decisions_cli")
 
 
 def report_drift(ctx, names, found_failure):
-    """a decision expression the translator could not handle: the theorems are about the hand-written copy, the tie
-    from the source text to the Coq definition is broken -> VIOLATION ... no-failing-input-found (unless the search
-    of this run already produced a concrete failing input)"""
-    st = gen_status()
-    bad = [n for n in names if n in st and not st[n]["translated"]]
-    missing = [n for n in names if n not in st]
-    ctx.cov["generated_from_source"] = sorted(n for n in names if n in st and st[n]["translated"])
-    ctx.cov["generated_fallback"] = bad + missing
-    if (bad or missing) and not found_failure:
-        ctx.violation("decision expression(s) no longer translatable from the source text; the theorems now speak about "
-                      "the hand-written copy only: " + "; ".join("%s: %s" % (n, st.get(n, {}).get("message", "no status"))
-                                                                 for n in bad + missing),
-                      dict(theorem_or_correspondence="Gen/DecisionsCli.v <-> source text", targets=bad + missing), nfi=True)
+    """see vlib.report_gen_drift (the generated CLI decision expressions, Gen/DecisionsCli.v)"""
+    vlib.report_gen_drift(ctx, "decisions_cli", names, found_failure, vfile="Gen/DecisionsCli.v")
 
 
 def vb(b):
